@@ -1292,20 +1292,23 @@ class ContactHandler(Messenger, dbus.service.Object):
     def recv_xfer_ack(self, transfer_id, flags, length):
         Messenger.recv_xfer_ack(self, transfer_id, flags, length)
 
+        if transfer_id not in self._tx_map:
+            raise RejectError(messages.RejectMsg.Reason.UNEXPECTED)
+
         if self._config.modulate_target_ack_time is not None:
             delta_b = length - self._segment_last_ack_len
             self._segment_last_ack_len = length
 
             rx_time = datetime.datetime.now(datetime.timezone.utc)
-            tx_time = self._segment_tx_times.pop(length)
-            delta_t = (rx_time - tx_time).total_seconds()
-
-            self._modulate_tx_seg_size(delta_b, delta_t)
+            tx_time = self._segment_tx_times.pop(length, None)
+            if tx_time is not None:
+                delta_t = (rx_time - tx_time).total_seconds()
+                self._modulate_tx_seg_size(delta_b, delta_t)
 
         item = self._tx_map[transfer_id]
         item.ack_length = length
         if flags & messages.TransferSegment.Flag.END:
-            if not self._do_send_ack_final:
+            if not self._do_send_ack_final or item not in self._tx_pend_ack:
                 raise RejectError(messages.RejectMsg.Reason.UNEXPECTED)
 
             self.send_bundle_finished(str(item.transfer_id), length, 'success')
